@@ -26,7 +26,7 @@ import (
 )
 
 func init() {
-	fw.Register(&fw.Check{ID: "C42", Level: "model_checking", Run: runC42, QuickBudget: 100, ThoroughBudget: 1200})
+	fw.Register(&fw.Check{ID: "C42", Level: "model_checking", Run: runC42, QuickBudget: 100, ThoroughBudget: 1400})
 }
 
 // c42Seqs returns the argument lists used for Independents on n commits: every
@@ -101,7 +101,7 @@ func c42Union(in *eInst, xs ...int) uint32 {
 
 func runC42(c *fw.Ctx) {
 	maxN := c.Pick(4, 5)
-	litN := c.Pick(3, 4)
+	litN := 3 // literal git commands: complete <=3-commit space in both tiers (<=4 would be 329,066 processes)
 	batchN := 4
 	maxPar := func(n int) int {
 		if n <= 4 {
